@@ -9,9 +9,9 @@ tag marked a key of), which skips the marked keys and redacts every other string
 Values are M7t's trees (`Evl.EncryptTree.V`); a pointer is a list of map keys (`/k1/k2/k3`), followed
 through maps and pointers to maps.  What is *not* modelled: pointers through slices and structs
 (`/list/0/name`, `/st/M/c`: exercised on the implementation by the deep-shape harness), and a
-protecting tag (redact / encrypt / hmac) pointing at anything but a string or a nil value — the real
-code formats such a value with `%s` and replaces it by a string, changing the shape; the model answers
-`none` there and the generator never produces it.
+protecting tag (redact / encrypt / hmac) pointing at anything but a string, a pointer to a string or a
+nil value — the real code formats such a value with `%s` and replaces it by a string, changing the
+shape; the model answers `none` there and the generator never produces it.
 -/
 namespace Evl.EncryptTag
 open Evl.Encrypt Evl.EncryptTree
@@ -95,12 +95,16 @@ def setPath : List Nat → V → Items → Items
   | k :: k2 :: rest, v', es => setIn k (onMap (fun es' => setPath (k2 :: rest) v' es')) es
 
 /-- `filterValue` with pointer-structure info, on the value found at the pointer; `none` = error.
-A string is filtered as its tag dictates; nil values are left alone whatever the tag says. -/
-def filterTagged (c : Ctx) (a : Action) : V → Option V
-  | .leaf (.plain m) => (filterLeaf c.k c.ek a m).map .leaf
+A string is filtered as its tag dictates (`tagAction`: it is not settable, an unusable classification is
+an error); a string held *through a pointer* is settable (`reflect.Indirect`), so it is filtered in
+place like a struct field (`action`: an unusable classification redacts it) and the pointer stays
+(fix d474601); nil values are left alone whatever the tag says. -/
+def filterTagged (c : Ctx) (t : TagInfo) : V → Option V
+  | .leaf (.plain m) => (filterLeaf c.k c.ek (tagAction t) m).map .leaf
+  | .ptr (.leaf (.plain m)) => (filterLeaf c.k c.ek (action t) m).map (fun l => .ptr (.leaf l))
   | .nilPtr => some .nilPtr
   | .leaf .nilBytes => some (.leaf .nilBytes)
-  | v => if a = .keep then some v else none      -- see the header: not modelled beyond `keep`
+  | v => if tagAction t = .keep then some v else none      -- see the header: not modelled beyond `keep`
 
 /-- the payload while its tags are applied, and the pointers filtered so far -/
 structure TS where
@@ -115,7 +119,7 @@ def applyTag (c : Ctx) (s : TS) (t : PTag) : Option TS :=
   | .notFound => some s
   | .error => none
   | .found v =>
-    match filterTagged c (tagAction (fromTagString t.tagString c.ov)) v with
+    match filterTagged c (fromTagString t.tagString c.ov) v with
     | none => none
     | some v' => some { es := setPath t.path v' s.es, marks := s.marks ++ [t.path] }
 
